@@ -69,6 +69,9 @@ SOLUTION_ELEMENTS = {"Na", "K", "Ca", "Mg", "Cl", "S", "C", "Si", "Sr", "Ba", "F
 KEY_CD = "cd_music-species-without-charge-distribution"
 KEY_NEG = "negative-total-recovery-with-kinetics"
 KEY_ABS = "absent-phase-element-drift"
+KEY_TRACE = "trace-element-below-solver-resolution"
+MIN_TOTAL = 1e-25
+KIN_SOLVES = 500        # default -bad_step_max: most solver passes (each saved and continued from) of one kinetic time step
 
 
 def hx(s):
@@ -396,7 +399,9 @@ def judge_history(ctx, h, res, pm):
         if rel:
             out["related_sites"] = out.get("related_sites", 0) + len([b for b in bad if b["element"] in rel])
             bad = drop_related(bad, rel)
-        bad, fnd, excluded = attribute(bad, before, after, plan["use"], plan["save"], runs[s]["warn"], phases, extra, "simulation %d" % s)
+        nsolve = (nsteps if h["incremental"] else 1) * (KIN_SOLVES if "kinetics" in plan["use"] else 1)
+        bad, fnd, excluded = attribute(bad, before, after, plan["use"], plan["save"], runs[s]["warn"], phases, extra,
+                                       "simulation %d" % s, nsolve)
         excluded |= rel
         for f in fnd:
             out.setdefault("findings", []).append(f + (s,))
@@ -511,10 +516,20 @@ def drop_related(bad, rel):
             not (b["element"] in ("H", "O") and abs(b["diff"]) <= 2 * dsites * (1 + 1e-6))]
 
 
-def attribute(bad, before, after, use, save, warn, phases, extra, where):
+def attribute(bad, before, after, use, save, warn, phases, extra, where, nsolve=1):
     """split the imbalances of one step/simulation into those explained exactly by a listed known finding and the rest;
-    returns (remaining, [(key, text)], excluded elements ("*" = all))"""
+    returns (remaining, [(key, text)], excluded elements ("*" = all)).  nsolve = number of chained solver passes whose
+    results were saved and continued from in the judged interval"""
     fnd, excluded = [], set()
+    # The engine accepts a mole-balance row when |residual| < convergence_tolerance*total OR |residual| <= sqrt(total*MIN_TOTAL)
+    # (model.cpp residuals()/check_residuals()). For a trace total the absolute branch exceeds 1e-6 of the total
+    # (single pass: total < 1e-13 mol; n chained passes: total < n^2*1e-13 mol). Only that absolute allowance is attributed.
+    tr = [b for b in bad if b["element"] not in ("H", "O", "Charge") and b["scale"] > 0 and
+          abs(b["diff"]) <= nsolve * (b["scale"] * MIN_TOTAL) ** 0.5]
+    if tr:
+        fnd.append((KEY_TRACE, "%s: %s (allowance %d solver passes x sqrt(total*1e-25))" % (where, json.dumps(tr[:3]), nsolve)))
+        bad = [b for b in bad if b not in tr]
+        excluded |= {b["element"] for b in tr}
     if cd_music_inconsistent(before, use.get("surface")) or cd_music_inconsistent(after, save.get("surface")):
         # known finding: plane charges of a CD_MUSIC surface do not add up to the charge of its species
         cbad = [b for b in bad if b["element"] == "Charge"]
@@ -702,7 +717,8 @@ def judge_drive(ctx, h, res, pm):
                         out["worst"] = max(out["worst"], abs(diff) / scale)
             out["steps"] += 1
             bad = drop_related(bad, rel)
-            bad, fnd, _ = attribute(bad, before, after, use2, use2, warn, phases, extra, "driven step %d" % k)
+            bad, fnd, _ = attribute(bad, before, after, use2, use2, warn, phases, extra, "driven step %d" % k,
+                                    KIN_SOLVES if "kinetics" in use2 else 1)
             out["findings"] += [f + (1,) for f in fnd]
             if bad and "kinetics" in use2 and (rc_step == 3 or any(b["before"] + b["added"] < -1e-15 for b in bad)):
                 out["findings"].append((KEY_NEG, "driven step %d: reaction removes more than the cell holds; %s" % (k, json.dumps(bad[:3])), 1))
